@@ -323,6 +323,9 @@ func TestC12(t *testing.T) {
 		}
 		r := rand.New(rand.NewSource(seed))
 		liveT, liveS, liveN := map[string]bool{}, map[string]bool{}, map[string]bool{}
+		incT := map[string]int{}      // topic name -> number of the live incarnation (0: none)
+		subInc := map[string][2]any{} // live subscription -> (topic name, incarnation)
+		nInc := 0
 		var reqs []Rpc
 		var walks []func(results []*RpcResult) string
 		name := func(kind string) string {
@@ -353,6 +356,13 @@ func TestC12(t *testing.T) {
 			}
 			plannedT = append(plannedT, "projects/p/topics/w0")
 			plannedS = append(plannedS, "projects/p/subscriptions/w1")
+			// a topic that is deleted and made again keeps nothing of its predecessor, its subscriptions included
+			reqs = append(reqs, Rpc{Kind: "createTopic", Name: "projects/p/topics/w9"},
+				Rpc{Kind: "createSub", Sub: &SubReq{Name: "projects/p/subscriptions/x1", Topic: "projects/p/topics/w9"}},
+				Rpc{Kind: "createSub", Sub: &SubReq{Name: "projects/p/subscriptions/x2", Topic: "projects/p/topics/w9"}},
+				Rpc{Kind: "deleteTopic", Name: "projects/p/topics/w9"}, Rpc{Kind: "createTopic", Name: "projects/p/topics/w9"},
+				Rpc{Kind: "createSub", Sub: &SubReq{Name: "projects/p/subscriptions/x3", Topic: "projects/p/topics/w9"}})
+			plannedT = append(plannedT, "projects/p/topics/w9")
 		}
 		for i := 0; i < 60; i++ {
 			switch r.Intn(12) {
@@ -409,6 +419,8 @@ func TestC12(t *testing.T) {
 					}
 					if res.Status == "OK" {
 						liveT[rq.Name] = true
+						nInc++
+						incT[rq.Name] = nInc
 					}
 				case "deleteTopic":
 					if liveT[rq.Name] != (res.Status == "OK") {
@@ -416,6 +428,7 @@ func TestC12(t *testing.T) {
 					}
 					if res.Status == "OK" {
 						delete(liveT, rq.Name)
+						delete(incT, rq.Name)
 						// snapshots of subscriptions of the topic go with it
 						for n := range liveN {
 							if g := a.ExecRpc(Rpc{Kind: "getSnap", Name: n}); g.Status != "OK" {
@@ -435,6 +448,7 @@ func TestC12(t *testing.T) {
 					}
 					if res.Status == "OK" {
 						liveS[rq.Sub.Name] = true
+						subInc[rq.Sub.Name] = [2]any{rq.Sub.Topic, incT[rq.Sub.Topic]}
 					}
 				case "deleteSub":
 					if liveS[rq.Name] != (res.Status == "OK") {
@@ -522,6 +536,72 @@ func TestC12(t *testing.T) {
 						}
 						st.Count("list_walks", 1)
 					}
+				}
+			}
+			// the subscriptions of a topic: those attached to the live incarnation of that name
+			var tnames []string
+			for _, n := range plannedT {
+				dup := false
+				for _, o := range tnames {
+					dup = dup || o == n
+				}
+				if !dup {
+					tnames = append(tnames, n)
+				}
+			}
+			for _, tn := range tnames {
+				var want []string
+				for sn := range liveS {
+					if x := subInc[sn]; x[0] == tn && incT[tn] != 0 && x[1] == incT[tn] {
+						want = append(want, sn)
+					}
+				}
+				sort.Strings(want)
+				for _, size := range []int32{1, 2, 100, 0} {
+					var got []string
+					tok := ""
+					for page := 0; page < 200; page++ {
+						res := exec(Rpc{Kind: "listTopicSubs", Name: tn, Size: size, Token: tok})
+						if !liveT[tn] {
+							if res.Status != "NotFound" {
+								fire("list-topic-subs", fmt.Sprintf("ListTopicSubscriptions(%s) of a topic that is not live answered %s", tn, res.Status), done)
+							}
+							break
+						}
+						if res.Status != "OK" {
+							fire("list-error", fmt.Sprintf("ListTopicSubscriptions(%s) answered %s", tn, res.Status), done)
+							break
+						}
+						body, next, _ := strings.Cut(res.Body, "|next=")
+						n := 0
+						for _, item := range strings.Split(body, ";") {
+							if item == "" {
+								continue
+							}
+							nm, _ := Dec(strings.TrimPrefix(item, "name="))
+							got = append(got, nm)
+							n++
+						}
+						if size > 0 && size < 100 && n > int(size) {
+							fire("page-size", fmt.Sprintf("ListTopicSubscriptions(%s, page_size %d) returned %d items", tn, size, n), done)
+						}
+						if next == "-" {
+							break
+						}
+						if u, e := IdFromStr(next); e == nil {
+							tok = u.String()
+						} else {
+							break
+						}
+					}
+					if !liveT[tn] {
+						break
+					}
+					sort.Strings(got)
+					if strings.Join(got, "|") != strings.Join(want, "|") {
+						fire("list-topic-subs", fmt.Sprintf("ListTopicSubscriptions(%s) with page size %d returned %v across its pages; the live subscriptions attached to the live topic of that name are %v", tn, size, got, want), done)
+					}
+					st.Count("list_topic_subs_walks", 1)
 				}
 			}
 			lines = w.Lines
